@@ -3,6 +3,12 @@
 import json, sys
 
 CHECKS = {
+ "C12": dict(cat="fault_enumeration", tech="fault injection by LD_PRELOAD interposition of libc file-system calls: for proptest-generated (prepared state, operation) pairs the matching call sequence is recorded and then EVERY position x errno in {EIO, EACCES, ENOSPC} is failed in a fresh process; snapshot differential against the fault-free run",
+   text="Operations of the struct layer API, the trait layer API and the real detect/build executable run under a shim that fails exactly the k-th open/read/write/mkdir/unlink/rmdir/rename/chmod/symlink/opendir/readdir under <layers>, the plan file and <platform>; whenever the call or phase reports success although the fault was delivered, the directory must be identical to the fault-free result, and a failing phase must have run the error handler exactly once.",
+   note="Single faults; stat-family calls and ENOENT never injected; close/fsync not injected; calls glibc makes internally without an interposable symbol are out of reach; trusted: glibc symbol interposition."),
+ "C15": dict(cat="exploration", tech="proptest-generated Cargo workspaces packaged by the real cargo-libcnb binary built from /repo; structural oracle over the output directories (byte-identity with sources and compiled targets, tomllib-decoded package.toml) and a metamorphic relation: packaging over pre-seeded (foreign / truncated / stale-revision) output == packaging into an empty directory",
+   text="Workspaces of libcnb.rs buildpack crates (several binary targets), composite buildpacks with libcnb:/path/docker dependencies and non-libcnb buildpacks are generated and packaged from the root, from each buildpack directory and from an unrelated directory, dev/release, default/relative/absolute package dir; every expected output directory is checked entry by entry, stdout must list exactly the selected buildpacks, and runs over pre-seeded output directories must produce the identical snapshot as clean runs.",
+   note="Host gnu triple passed explicitly (no musl target in the sandbox); packaged locations are URI-safe paths; the interrupted-run model is a truncated copy of a real earlier output."),
  "C16": dict(cat="fault_enumeration", tech="proptest-generated fault-free scenario trees; for each tree EVERY single fault is enumerated (each external command failing, a panic at each step position, an unexpected pack result at each build) and executed in a worker process against recording stand-ins for docker/pack; invariant over the recorded command history and final resource state",
    text="Scenario trees over build/rebuild/start_container/logs/port/exec/run_shell/sbom download run through the public TestRunner API against stand-in docker and pack binaries that log argv and keep a state directory with foreign resources; for each tree the fault-free run and every single-fault variant must satisfy: detached containers force-removed after last use, image and both cache volumes force-removed exactly once after last use, nothing foreign removed, nothing of the run left (unless the failed command was that removal), TMPDIR empty.",
    note="Docker and pack are modelled by a stand-in whose exit codes and --force semantics are part of the trusted base; single faults only (a closure panic plus a failing `docker rm` during unwinding aborts the process; recorded as an observation in DESIGN.md, outside the property's quantifier)."),
@@ -73,7 +79,7 @@ m = {
    "add_only": True,
  },
  "engines": [
-   {"name": "vh", "path": "harness/", "serves_properties": sorted(CHECKS), "kind_free_text": "Rust harness: proptest 1.11 driven from a binary (fixed seed, shrinking, JSON replay files), bounded-exhaustive enumerators, reference models, process-level workers"},
+   {"name": "vh", "path": "harness/", "serves_properties": sorted(CHECKS), "kind_free_text": "Rust harness: proptest 1.11 driven from a binary (fixed seed, shrinking, JSON replay files), bounded-exhaustive enumerators, reference models, process-level workers (vworker), scripted buildpack (vbp), stand-in docker/pack (vstub), scripted child (vchild), LD_PRELOAD fault shim (shim/faultfs.c), independent TOML reader (py/tomlread.py)"},
  ],
  "checks": [],
  "notes": "All checks: ./check <ID> quick|thorough; replay: ./check <ID> --replay <file>. Exit 2 = inconclusive (never a violation).",
